@@ -797,6 +797,27 @@ func main() {
 		check(c, "collide", i, r, v)
 	})
 
+	// wide containers whose entries are empty and non-empty containers of every type, with a
+	// nested tail (streams.go); a few depths beyond the quick range of the deep section
+	nWideNested := c.N(42, 252)
+	c.Cases("wide-nested", nWideNested, func(i int, r *vlib.Rand) {
+		v := wideNested(r, i)
+		empties := 0
+		for _, k := range valgen.Children(&v) {
+			if valgen.IsContainer(k.Tag) && len(valgen.Children(&k)) == 0 {
+				empties++
+			}
+		}
+		bump("wide_nested_values", 1)
+		bump("wide_nested_empty_entries", int64(empties))
+		top("max_wide_nested_empty_entries", int64(empties))
+		check(c, "wide-nested", i, r, v)
+	})
+	deepExtra := []int{128, 256, 511, 512, 513, 514, 768, 1024}
+	c.Cases("deep-extra", len(deepExtra), func(i int, r *vlib.Rand) {
+		check(c, "deep-extra", i, r, valgen.Deep(r, deepExtra[i]))
+	})
+
 	recheckElders(c, "end-of-run", nil) // the long-lived decoded values, after everything else
 	ringVerify("the end of the round-trip sections")
 	heldRingCtx = nil // the sections below hold their results themselves
@@ -814,6 +835,14 @@ func main() {
 		heldCase(c, fmt.Sprintf("held-parallel#%d", i), r)
 	})
 	c.Count("held_parallel_cases", c.Counter("held_cases")-before)
+
+	// many values through one output and one input; shared sub-objects; histories
+	nStream := c.N(96, 960)
+	c.Cases("stream", nStream, func(i int, r *vlib.Rand) { streamCase(c, i, r) })
+	nShared := c.N(5000, 80000)
+	c.Cases("shared", nShared, func(i int, r *vlib.Rand) { sharedCase(c, i, r) })
+	nHistory := c.N(5000, 80000)
+	c.Cases("history", nHistory, func(i int, r *vlib.Rand) { historyCase(c, i, r) })
 
 	// ---- flush evidence ---------------------------------------------------------------------
 	for k, n := range stat {
@@ -853,7 +882,7 @@ func main() {
 			}
 			c.Floor(name, minTotal, got)
 		}
-		total := int64(len(edges) + nRandom + nPerType + nDeep + nWide + nCollide)
+		total := int64(len(edges) + nRandom + nPerType + nDeep + nWide + nCollide + nWideNested + len(deepExtra))
 		floor("values_checked", total/10, stat["values_checked"])
 		c.Floor("types_seen_per_shard", 20, typesSeen) // every shard meets all 20 implemented types
 		for _, t := range refcodec.ValueTags {
@@ -896,6 +925,30 @@ func main() {
 		floor("containers_empty", int64(nRandom/10), stat["containers_empty"])
 		floor("containers_singleton", int64(nRandom/20), stat["containers_singleton"])
 		floor("containers_mixed_types", int64(nRandom/10), stat["containers_mixed_types"])
+		// streams, shared sub-objects, histories
+		floor("wide_nested_values", int64(nWideNested)/2, stat["wide_nested_values"])
+		floor("wide_nested_empty_entries", int64(nWideNested)*60, stat["wide_nested_empty_entries"])
+		floor("stream_cases", int64(nStream)/10, stat["stream_cases"])
+		floor("stream_values", int64(nStream)*100, stat["stream_values"])
+		floor("stream_net_mode_values", int64(nStream)*100, stat["stream_net_mode_values"])
+		floor("stream_empty_containers", int64(nStream)*50, stat["stream_empty_containers"])
+		floor("shared_cases", int64(nShared)/10, c.Counter("shared_cases"))
+		floor("graph_values_with_shared_containers", int64(nShared)/20, c.Counter("graph_values_with_shared_containers"))
+		floor("graph_values_with_container_at_two_depths", int64(nShared)/40, c.Counter("graph_values_with_container_at_two_depths"))
+		floor("graph_objects_in_two_values", int64(nShared)/10, c.Counter("graph_objects_in_two_values"))
+		floor("graph_streams", int64(nShared+nHistory)/10, c.Counter("graph_streams"))
+		floor("graph_writes", int64(nShared+nHistory), c.Counter("graph_writes"))
+		for _, wm := range writeModes {
+			floor("graph_writes_"+wm, int64(nShared+nHistory)/10, c.Counter("graph_writes_"+wm))
+		}
+		floor("history_cases", int64(nHistory)/10, c.Counter("history_cases"))
+		floor("history_mutations", int64(nHistory)/2, c.Counter("history_mutations"))
+		floor("history_rewrites_of_parents", int64(nHistory)/2, c.Counter("history_rewrites_of_parents"))
+		floor("history_mutations_of_decoded_objects", int64(nHistory)/10, c.Counter("history_mutations_of_decoded_objects"))
+		floor("history_mutations_of_helper_made_objects", int64(nHistory)/20, c.Counter("history_mutations_of_helper_made_objects"))
+		for _, mu := range historyMutators {
+			floor("history_mutations_"+mu, int64(nHistory)/200, c.Counter("history_mutations_"+mu))
+		}
 		for _, w := range []string{"str", "int"} {
 			floor("maps_chain_ge8_"+w, int64(nCollide/40), stat["maps_chain_ge8_"+w])
 			floor("maps_table_grown_"+w, int64(nCollide/50), stat["maps_table_grown_"+w])
